@@ -9,6 +9,8 @@ open Hidi
 structure St where
   dev : DevSt := {}
   parse : ParseSt := {}
+  load : LoadSt := {}
+  norm : NormSt := {}
 
 /-- note-name engine (C11) -/
 def noteLine (toks : List String) : Option String :=
@@ -31,6 +33,12 @@ def St.line (s : St) (line : String) : St × Option String :=
   | t :: _ =>
     if t.startsWith "#" then (s, none)
     else if t = "s2n" ∨ t = "n2s" then (s, noteLine toks)
+    else if t = "h" ∨ t = "h.reset" ∨ t = "norm" then
+      let (p, o) := s.norm.line toks
+      ({ s with norm := p }, o)
+    else if t.startsWith "tree." ∨ t = "find" then
+      let (p, o) := s.load.line toks
+      ({ s with load := p }, o)
     else if t.startsWith "t." ∨ t = "hidi" then
       let (p, o) := s.parse.line toks
       ({ s with parse := p }, o)
